@@ -30,6 +30,20 @@ def gen_ell_one(repo: str) -> str:
     return unit.render("The difference-matrix setups of the l1 trend filter (series/_ell_one.py, property C14) as definitions over QMat.")
 
 
+def gen_hp(repo: str) -> str:
+    E = _engine()
+    spec = E.ClassSpec(
+        "_ConstrainedHodrickPrescottFilter", "src/irispie/series/_hp.py",
+        {"_num_periods": E.INT, "_smooth": E.RAT, "_log": E.BOOL, "_num_extra_rows": E.INT, "_F": E.MAT},
+        lean="HPFilter",
+    )
+    unit = E.Unit(repo, "src/irispie/series/_hp.py", "IrisVerif.Gen.Hp", classes={"_ConstrainedHodrickPrescottFilter": spec})
+    for m in ("_create_plain_filter_matrix", "_add_level_constraints", "_add_change_constraints"):
+        unit.method(spec, m)
+    return unit.render("Assembly of the constrained Hodrick-Prescott system matrix (series/_hp.py, property C14) as definitions over QMat.")
+
+
 GENERATORS = {
     "EllOneGen.lean": (gen_ell_one, {"C14"}),
+    "HpGen.lean": (gen_hp, {"C14"}),
 }
